@@ -81,6 +81,23 @@ Theorem C02_epoch_frame : forall (s : state) height oracle maxv M mp (i : nat),
   nth i (step s (Epoch height oracle maxv M mp)) empty_consumer = nth i s empty_consumer.
 Proof. exact epoch_frame. Qed.
 
+(* BeginBlockLaunchConsumers: a consumer due in this block (at any position of the due list) is launched iff it was
+   not launched, its [next_set] is not empty and contains a validator of the provider's active set; its stored set
+   is then that [next_set]; otherwise nothing about it changes (LaunchConsumer ran on a cached context) *)
+Theorem C02_launch_is_next_set : forall (s : state) height oracle maxv M due i mp,
+  NoDup (map fst due) -> In (i, mp) due -> 0 <= i < Z.of_nat (length s) ->
+  let c := get s i in
+  let nx := next_set oracle maxv M height c mp in
+  let c' := get (step s (Launch height oracle maxv M due)) i in
+  if launch_cond nx c (firstn (Z.to_nat M) oracle)
+  then launched c' = true /\ valset c' = nx /\ cfg c' = cfg c /\ keys c' = keys c
+  else c' = c.
+Proof. exact launch_is_next_set. Qed.
+
+Theorem C02_launch_frame : forall (s : state) height oracle maxv M due i,
+  0 <= i -> ~ In i (map fst due) -> get (step s (Launch height oracle maxv M due)) i = get s i.
+Proof. exact launch_frame. Qed.
+
 (* regression for the repaired defect (DESIGN.md 9.1): the computation as it was before the fix admits a
    member outside the provider's active set on the tie witness *)
 Theorem C02_active_refuted_prefix_bug :
